@@ -14,6 +14,7 @@ import Imeta.Props.C12
 import Imeta.Props.C10
 import Imeta.Props.C16
 import Imeta.Model.Png
+import Imeta.Props.C11
 namespace Imeta.C01
 open Imeta Imeta.Exif
 
@@ -93,5 +94,13 @@ theorem C01_focalLength_text (t : Bytes) : (Codec.focalStrip t).isPanic = false 
 /-- non-vacuity: the 12-byte GPSDateStamp that panicked before the repair is now a plain "no date" -/
 example : (parseGPSDate { rest := [50, 48, 50, 49, 58, 48, 50, 58, 48, 51, 32, 120], po := 100, exifLength := 1000, buffered := true }
     { off := 100, count := 12, id := 0x1d, typ := tASCII, ifd := gpsIFD, idx := 0, order := .little }).isPanic = false := by decide
+
+
+/-- ISOBMFF (isobmff.Reader.ReadFTYP / ReadMetadata, which Decode / DecodeCR3 / PreviewCR3 drive): the model never reaches
+a panic outcome, for every stream -/
+theorem C01_isobmff_readMetadata (s : Bmff.St) (hs : s.chain = []) : ¬ Bmff.isPanic (Bmff.readMetadata s).1 :=
+  Props.C11.C11_readMetadata_total s hs
+theorem C01_isobmff_readFTYP (s : Bmff.St) (hs : s.chain = []) : ¬ Bmff.isPanic (Bmff.readFTYP s).1 :=
+  Props.C11.C11_readFTYP_total s hs
 
 end Imeta.C01
